@@ -536,6 +536,7 @@ class Cfg:
         self.matlab_ignore = False   # (read by streams.matlab_case) put namespaced classes on the MATLAB ignore list
         self.p_twin_arg = 0.0        # chance that an argument repeats an earlier templated argument type with other inner qualifiers
         self.p_kwlike = 0.0          # chance that a name starts with / contains a keyword of the dialect (classification, structure_t, …)
+        self.p_member_template = None  # chance of a member-level template (default p_template * 0.6)
         self.ns_pool = None          # namespace names are drawn from this pool (small pool = re-opened namespaces)
         self.n_typedefs = None       # number of typedefs added by gen_module_inst (default: 0-4)
         self.mnames = None           # pool of method / function names (default MNAMES)
@@ -756,7 +757,7 @@ class Gen:
         k = rng.choice(kinds)
         mt = None
         tps = tuple(ctparams)
-        if k in ('ctor', 'method', 'static') and rng.random() < self.cfg.p_template * 0.6:
+        if k in ('ctor', 'method', 'static') and rng.random() < (self.cfg.p_template * 0.6 if self.cfg.p_member_template is None else self.cfg.p_member_template):
             mt = self.gen_tmpl(exclude=ctparams)
             tps = tps + tuple(p.name for p in mt)
         if k == 'ctor':
